@@ -49,6 +49,7 @@ def instances(tier, seed):
     add("terms:CH->CF:M1:structure-uses-the-pattern-labels", pattern='CH->CF', N=3, M=1, s_rows={'bond': 2}, terms={'bond': 1}, s_labels=['pC', 'pH', 'pO'], cost=5)
     add("terms:CHH->CHH:M1:structure-uses-the-pattern-labels", pattern='CHH->CHH', N=4, M=1, s_rows={'bond': 2, 'angle': 2}, terms={}, s_labels=['pC', 'pH', 'pO'], cost=10)
     add("terms:CCH->CCF-retyped:M1:common-atom-re-typed-in-place", pattern='CCH->CCF-retyped', N=4, M=1, s_rows={'bond': 2}, terms={'bond': 1}, cost=30)
+    add("terms:CH->CH-moved-0.002A:M1:structure-angle-on-the-moved-atom", pattern='CH->CH-moved-0.002A', N=4, M=1, s_rows={'angle': 2}, terms={'angle': 1}, cost=30)
     add("terms:CH->CF:M1:emptied-kind", pattern='CH->CF', N=3, M=1, s_rows={'bond': 2}, terms={}, cost=3)
     add("terms:CH->CF:M1:structure-bonds-no-table-x-pattern-no-bonds", pattern='CH->C', N=3, M=1, s_rows={}, terms={'bond': 1}, cost=3)
     add("terms:chain:CH->CF-then-CH->NOO", pattern='CH->CF', pattern2='CH->NOO', N=4, M=1, s_rows={'bond': 2, 'angle': 2},
